@@ -138,7 +138,17 @@ func (r *Runner) runConcurrent() {
 	for _, o := range objs {
 		items = append(items, []interface{}{r.slotOf(o.UUID()), r.project(o)})
 	}
-	r.emit(ev{"ev": "final", "c": classify(err), "items": items})
+	fe := ev{"ev": "final", "c": classify(err), "items": items}
+	if t.FinalCheck {
+		// histories judged by their final state only (spec/SodFinal.tla)
+		n, cerr := r.db.Count(r.proto())
+		fe["count"], fe["count_c"] = n, classify(cerr)
+		fe["control"] = classify(r.db.Control())
+		r.recs, r.recIdx = []Vals{}, map[string]int{}
+		d := r.walk()
+		fe["nfiles"] = len(d["files"].([][]interface{}))
+	}
+	r.emit(fe)
 }
 
 func auxUUID(slot int) string { return fmt.Sprintf("00000000-0000-4000-8000-%012d", slot) }
@@ -212,6 +222,11 @@ func (r *Runner) doConc(g int, op *Op) (ret cev) {
 		time.Sleep(8 * time.Millisecond)
 		if err == nil {
 			ret.n, err = r.db.Count(newObj(r.cfg.Plain))
+		}
+	case "drop":
+		// Drop, then the collection is created again (two calls; whoever comes in between finds no collection)
+		if err = r.db.Drop(); err == nil {
+			err = r.db.Create(newObj(r.cfg.Plain), schemaFor(r.cfg))
 		}
 	case "xput":
 		// the second collection (race-detector runs only: results are not recorded): fixed identifiers per slot
